@@ -5,13 +5,15 @@ from fractions import Fraction as F
 from vlib import siref, world as W, qtyops as Q
 from vlib.qtyops import frs, num_value
 from vlib.pyround import to_quantum
+from vlib import regops as R
+import props.C10 as C10
 
 PID = 'C05'
 PROPERTY_FILE = 'Properties/C05.v'
 # generated model parts (translate/) this property's model / proofs really depend on
 GEN_DEPS = ['OpsImpl', 'QuantityImpl', 'RoundingImpl']
 MODEL_TARGETS = Q.MODEL_TARGETS
-PROOF_TARGETS = ['Proofs/GenOpsEq.vo', 'Proofs/C05Proofs.vo']
+PROOF_TARGETS = ['Proofs/GenOpsEq.vo', 'Proofs/C05Proofs.vo', 'Proofs/C10MoneyProofs.vo']
 COQ_HEADER = Q.COQ_HEADER
 COQ_CHECK = Q.COQ_CHECK
 ISOLATE = True
@@ -182,6 +184,13 @@ def gen_cases(rng, tier):
                       'op': {'o': rng.choice(['pow2', 'rdivq', 'rdivu', 'pow-1']),
                              'hf': hf, 'amt': amt,
                              'k': rng.choice(['3/1', '1/1', '7/2', '-5/1'])}})
+    # exchange-rate application to money: C10's cases with a money operand (incl. the
+    # amounts beside a rounding tie of the target currency); C10's harness and oracle
+    money = [c for c in C10.gen_cases(rng, tier) if c['q']['x'][-1] in dict(C10.CURS)]
+    k = 60 if tier == 'quick' else 600
+    for c in money[:k] + money[k:][-2 * k:]:          # random ones + the near-tie family (last)
+        cases.append({'dm': c['dm'], 'world': {'rate': True}, 'op': {'o': 'rate-' + c['q']['o']},
+                      'c': c})
     return cases
 
 
@@ -212,12 +221,16 @@ def _f11_run(case):
 
 
 def impl_run(case):
+    if case['world'].get('rate'):
+        return {'ops': [], 'res': {'k': 'rate'}, 'c': R.impl_run(case['c'])}
     if case['world'].get('f11'):
         return _f11_run(case)
     return Q.impl_run(case)
 
 
 def coq_case(case, r):
+    if case['world'].get('rate'):
+        return None              # modelled in C10 (Proofs/C10MoneyProofs.vo is an obligation here)
     if case['world'].get('f11'):
         return None              # modelled in C02 (products / powers); oracle only here
     return Q.coq_case(case, r)
@@ -244,6 +257,8 @@ def _f11_oracle(case, r):
 
 
 def oracle(case, r):
+    if case['world'].get('rate'):
+        return C10.oracle(case['c'], r['c'])
     if case['world'].get('f11'):
         return _f11_oracle(case, r)
     views = W.Views(case['world'])
@@ -314,7 +329,7 @@ def labels(case, r):
     w = case['world']
     out = ['op=' + op['o'], 'mode=' + case['dm'],
            'world=' + ('predefined' if w.get('predefined') else 'currency' if w.get('currencies')
-                       else 'f11' if w.get('f11') else 'user'),
+                       else 'f11' if w.get('f11') else 'rate' if w.get('rate') else 'user'),
            'result=' + (r['res']['e'] if r['res']['k'] == 'err' else r['res']['k'])]
     if op['o'] == 'mk':
         out.append('number-kind=' + op['n'][0])
@@ -322,6 +337,8 @@ def labels(case, r):
 
 
 def nontrivial_key(case, r):
+    if case['world'].get('rate'):
+        return str(case['c']['q'])
     if case['world'].get('f11'):
         return str(case['op']) + case['dm']
     op = case['op']
